@@ -11,9 +11,12 @@ PID = 'C09'
 TOL = 2e-5
 
 
-def one_fit(rng, fam, kind, ns, nu, rho, max_iter, trunc):
+def one_fit(rng, fam, kind, ns, nu, rho, max_iter, trunc, solver_iters=None):
     X, A0, B0 = lmi.linear_data(rng, ns, nu, kind=kind)
-    kw = dict(spectral_radius=rho, max_iter=max_iter, alpha=float(rng.choice([0, 0.1])), solver_params=lmi.SOLVER)
+    sp = dict(lmi.SOLVER)
+    if solver_iters is not None:
+        sp['max_iterations'] = solver_iters           # the solver gives up early: status 'unknown', meaningless iterate
+    kw = dict(spectral_radius=rho, max_iter=max_iter, alpha=float(rng.choice([0, 0.1])), solver_params=sp)
     if fam == 'edmd':
         reg = L.LmiEdmdSpectralRadiusConstr(inv_method=str(rng.choice(['svd', 'eig', 'chol', 'sqrt'])), **kw)
     else:
@@ -56,8 +59,12 @@ def run(res, tier):
         trunc = None
         if fam == 'dmdc' and ns + nu >= 2 and rng.random() < 0.6:
             trunc = ('rank', int(rng.integers(max(1, ns), ns + nu + 1))) if rng.random() < 0.7 else ('cutoff', 1e-3)
+        solver_iters = int(rng.integers(1, 5)) if cid % 4 == 3 else None
+        if solver_iters is not None:
+            kind = 'unstable'; rho = float(rng.choice([0.1, 0.3]))
         try:
-            info, desc, X = one_fit(rng, fam, kind, ns, nu, rho, max_iter, trunc)
+            info, desc, X = one_fit(rng, fam, kind, ns, nu, rho, max_iter, trunc, solver_iters)
+            desc['solver_max_iterations'] = solver_iters
         except Exception as e:  # noqa
             dist['fit_error'] = dist.get('fit_error', 0) + 1
             continue
@@ -66,6 +73,28 @@ def run(res, tier):
             bad.append(dict(info, **desc, X=X.tolist()))
         if len(samples) < 3:
             samples.append(desc)
+    # history: the same estimator object refitted after set_params must behave as a fresh one (log included)
+    for h in range(3 if tier == 'quick' else 20):
+        cls = [L.LmiEdmdSpectralRadiusConstr, L.LmiDmdcSpectralRadiusConstr][h % 2]
+        X, _, _ = lmi.linear_data(rng, 2, 1, kind='unstable')
+        try:
+            reg = cls(spectral_radius=1.1, max_iter=3, solver_params=lmi.SOLVER).fit(X, n_inputs=1, episode_feature=True)
+            reg.set_params(spectral_radius=0.5)
+            reg.fit(X, n_inputs=1, episode_feature=True)
+            fresh = cls(spectral_radius=0.5, max_iter=3, solver_params=lmi.SOLVER).fit(X, n_inputs=1, episode_feature=True)
+        except Exception:  # noqa
+            dist['fit_error'] = dist.get('fit_error', 0) + 1
+            continue
+        dist['refit_history'] = dist.get('refit_history', 0) + 1
+        A, _ = lmi.ab(reg, 2)
+        sr = float(np.max(np.abs(np.linalg.eigvals(A))))
+        k = lmi.log_monotone(reg.objective_log_)
+        same_log = len(reg.objective_log_) == len(fresh.objective_log_) and np.allclose(reg.objective_log_, fresh.objective_log_, rtol=1e-4, atol=1e-6)
+        if sr > 0.5 * (1 + TOL) + TOL or k is not None or not same_log:
+            bad.append(dict(what='estimator refitted after set_params(spectral_radius=...) violates the new bound, or its objective log '
+                                 'is not that of a fresh fit (increases / carries entries of the earlier fit)',
+                            achieved_radius=sr, log=list(map(float, reg.objective_log_)), log_fresh=list(map(float, fresh.objective_log_)),
+                            estimator=repr(reg), X=X.tolist()))
     ev = sum(v for k, v in dist.items() if k != 'fit_error')
     res.coverage.update(
         programs=ev, disagreements_checked=ev, evaluations=ev, distinct_nontrivial=ev,
